@@ -4,9 +4,13 @@ CHECK = {
     "packages": ["./crdt"],
     "harness": ["crdt/zz_verif_c39.go", "crdt/zz_verif_c38.go"],
     "entries": [
-        {"fn": P + "vC39_gcounter"},
-        {"fn": P + "vC39_pncounter"},
-        {"fn": P + "vC39_mvregister"},
+        {"fn": P + "vC39_gcounter", "cases_quick": {"bUpdates": [1], "part": [0, 1]}, "cases_thorough": {"bUpdates": [2], "part": [0, 1]}},
+        {"fn": P + "vC39_pncounter", "cases_quick": {"bUpdates": [1], "part": [0, 1]}, "cases_thorough": {"bUpdates": [2], "part": [0, 1]}},
+        {"fn": P + "vC39_mvregister", "cases_quick": {"bUpdates": [1], "part": [0, 1]}, "cases_thorough": {"bUpdates": [2], "part": [0, 1]}},
+        {"fn": P + "vC39_orset", "cases_quick": {"bUpdates": [1], "part": [0, 1]}, "cases_thorough": {"bUpdates": [2], "part": [0, 1]}, "opts": {"batch_fresh": True}},
+        {"fn": P + "vC39_orset_fullstate", "cases_quick": {"bUpdates": [1], "part": [0, 1]}, "cases_thorough": {"bUpdates": [2], "part": [0, 1]}, "opts": {"batch_fresh": True}},
+        {"fn": P + "vC39_ormap", "cases_quick": {"bUpdates": [1], "part": [0, 1]}, "cases_thorough": {"bUpdates": [2], "part": [0, 1]}, "opts": {"batch_fresh": True}},
+        {"fn": P + "vC39_ormap_sets", "cases_quick": {"bUpdates": [1], "part": [0, 1]}, "cases_thorough": {"bUpdates": [2], "part": [0, 1]}, "opts": {"batch_fresh": True}},
     ],
     "opts": {"unwind": 10, "feas_from_iter": 100, "map_range": "per_entry", "map_dedup": True},
     "timeout_ms": {"quick": 400000, "thorough": 3000000},
